@@ -2453,7 +2453,7 @@ class XonshParser(Parser):
         return None
 
     def cmd_name(self) -> Any | None:
-        # cmd_name: NAME | KEYWORD | NUMBER | STRING | !']' !')' !'}' OP
+        # cmd_name: NAME | KEYWORD | NUMBER | STRING | FSTRING_START fstring_mid* FSTRING_END | !']' !')' !'}' OP
         mark = self._mark()
         if name := self.name():
             return name
@@ -2466,6 +2466,9 @@ class XonshParser(Parser):
         self._reset(mark)
         if _string := self.token("STRING"):
             return _string
+        self._reset(mark)
+        if (a := self.token("FSTRING_START")) and (self.repeated(self.fstring_mid),) and (b := self.token("FSTRING_END")):
+            return self.fstring_word(a, b)
         self._reset(mark)
         if (
             (self.negative_lookahead(self.expect, "]"))
